@@ -53,7 +53,9 @@ func VerifNewInstance(p VerifParams) *Instance {
 }
 
 // VerifGetSTH calls the instance's internal get-sth path.
-func (i *Instance) VerifGetSTH(ctx context.Context) (*ct.SignedTreeHead, error) { return i.li.getSTH(ctx) }
+func (i *Instance) VerifGetSTH(ctx context.Context) (*ct.SignedTreeHead, error) {
+	return i.li.getSTH(ctx)
+}
 
 // VerifSetRejectExt sets the forbidden extension list on validation options
 // (NewCertValidationOpts has no parameter for it).
